@@ -297,6 +297,23 @@ func main() {
 	res := vrt.Init()
 	if *vrt.ReplayPath != "" {
 		var rp replay
+		var srv struct{ Server string }
+		vrt.LoadReplay(&srv)
+		if srv.Server != "" {
+			for _, sc := range serverCases() {
+				if sc.Name == srv.Server {
+					runServerCase(res, sc)
+				}
+			}
+			for _, v := range res.Violations {
+				fmt.Println(v.Key, "\n ", v.Msg)
+			}
+			if len(res.Violations) > 0 {
+				fmt.Printf("VIOLATION property=C01 replay=%s\n", *vrt.ReplayPath)
+				os_exit(1)
+			}
+			return
+		}
 		vrt.LoadReplay(&rp)
 		r := &run{}
 		exp := expectOf(scripts[rp.Cfg.Script])
@@ -345,6 +362,11 @@ func main() {
 		}
 		for _, t := range st.SampleTraces {
 			res.Sample(map[string]any{"config": c.String(), "schedule": t})
+		}
+	}
+	if *vrt.Shard == 0 {
+		for _, sc := range serverCases() {
+			runServerCase(res, sc)
 		}
 	}
 	res.SetDistinctKeys(outcomes)
